@@ -148,6 +148,9 @@ type resState struct {
 
 // Server is the simulated API server.
 type Server struct {
+	// subFirst: discovery lists "<resource>/status" before "<resource>" (the order of an
+	// APIResourceList is not specified; every second simulated server uses this one)
+	subFirst  bool
 	mu        sync.Mutex
 	res       map[schema.GroupVersionResource]*resState
 	rv        int64
@@ -178,8 +181,11 @@ func NewServer() *Server {
 		clock:    new(int64),
 	}
 	s.tag.Store("")
+	s.subFirst = atomic.AddInt64(&serverCounter, 1)%2 == 0
 	return s
 }
+
+var serverCounter int64
 
 // Clock returns the logical clock shared with hook sites.
 func (s *Server) Clock() *int64 { return s.clock }
@@ -785,9 +791,16 @@ func (s *Server) serveDiscovery(req *http.Request, pp *parsedPath) *http.Respons
 		verbs := []interface{}{"create", "delete", "get", "list", "patch", "update", "watch"}
 		for _, k := range keys {
 			ri := byKey[k]
-			resources = append(resources, map[string]interface{}{"name": ri.Resource, "singularName": strings.ToLower(ri.Kind), "namespaced": ri.Namespaced, "kind": ri.Kind, "verbs": verbs})
-			if ri.HasStatus {
-				resources = append(resources, map[string]interface{}{"name": ri.Resource + "/status", "singularName": "", "namespaced": ri.Namespaced, "kind": ri.Kind, "verbs": []interface{}{"get", "patch", "update"}})
+			main := map[string]interface{}{"name": ri.Resource, "singularName": strings.ToLower(ri.Kind), "namespaced": ri.Namespaced, "kind": ri.Kind, "verbs": verbs}
+			if !ri.HasStatus {
+				resources = append(resources, main)
+				continue
+			}
+			sub := map[string]interface{}{"name": ri.Resource + "/status", "singularName": "", "namespaced": ri.Namespaced, "kind": ri.Kind, "verbs": []interface{}{"get", "patch", "update"}}
+			if s.subFirst {
+				resources = append(resources, sub, main)
+			} else {
+				resources = append(resources, main, sub)
 			}
 		}
 		gvs := pp.gv.Version
